@@ -3,7 +3,8 @@
 Proof: Properties/C03.v -- parser_terminates (generic PEG termination on the regenerated grammar),
 pipeline_no_panic (model of XmlDocument::new + Display + pretty + re-parse never panics),
 expansion_terminates (entity expansion, every table), panic_sites_classified (T4 inventory =
-hand-classified table).
+hand-classified table); the cost and stack bounds of the design are refuted: cost_refuted (2^(k+1)
+non-terminal calls on a well-formed document of 4k+37 characters, finding D10), depth_unbounded (D08).
 Tie: T2 + T4 regenerated; `parse` correspondence (model line = implementation line).
 Search: garbage, token mutations of valid documents, grammar sentences, and hostile shapes (each
 in its own process, 10 s / 64 MB stack): an output line `panic`, an abort, a hang or a run outside
@@ -147,7 +148,7 @@ def check(run):
     return run.finish(level='proof',
         rule='one case = one input string; distinct non-trivial = distinct non-empty strings plus the hostile families (one process each, 10 s, 64 MB stack)',
         assumptions=['no-panic is proved about the model; the panic sites classified Unreachable rest on reading arguments (Model/PanicSites.v)',
-                     'time and stack are observed on the real code only (findings D08, D10)'])
+                     'wall-clock time and native stack are observed on the real code only (findings D08, D10); cost_refuted counts non-terminal calls of the model interpreter'])
 
 def replay(path):
     d = json.load(open(path))
